@@ -228,7 +228,9 @@ PROPS["C15"] = dict(
           "match < p <= limit, non-overlapping memcpy, wrapping prefix sums, fixed-width unpackers get exactly N*width/8 input bytes. Non-trivial: count not a "
           "multiple of the variant's byte lane count and (misaligned start or end flush against the guard page)."),
     assumptions=["the scalar definitions in harness/c15_simd.cpp are the kernels' specification (they mirror dispatch.c's scalar fallbacks, which are themselves checked under the 'none' mask)"],
-    engines=[pbt("c15_simd", variant="prod", quick=dict(cases=15000, size=100, enum=1, procs=2), thorough=dict(cases=30000, size=100, enum=2, procs=4))] +
+    engines=[pbt("c15_simd", variant="prod", quick=dict(cases=15000, size=100, enum=1, procs=2), thorough=dict(cases=30000, size=100, enum=2, procs=4)),
+             # the same kernels built with the VBMI code paths enabled (what -march=native gives on this class of CPU)
+             pbt("c15_simd", variant="prodvbmi", name="c15_simd_vbmi_build", quick=dict(cases=6000, size=100, enum=1, procs=1), thorough=dict(cases=20000, size=100, enum=2, procs=2))] +
             [pbt("c15_simd", variant="prod", name="c15_dispatch_%d" % i, env={"CARQUET_VERIF_CPU_CAP": m},
                  quick=dict(cases=3000, size=100, enum=1, procs=1), thorough=dict(cases=10000, size=100, enum=2, procs=1)) for i, m in enumerate(_MASKS)],
     min_evaluations=dict(quick=300000, thorough=1500000),
